@@ -134,6 +134,43 @@ func checkScaleStep(t TB, c any, src barcode.Barcode, st ScaleStep, depth int) (
 	if !found {
 		failf(t, P, K, c, "depth %d: %dx%d %dD source scaled to %dx%d: %s", depth, W, H, dims, st.W, st.H, firstMsg)
 	}
+	// At(x,y) must be a function of (x,y) only: read again bottom-up / right-to-left and in a scattered order
+	// and compare with the raster read (an image that caches rows or renders lazily must still answer the same)
+	if pv := try(func() {
+		n := st.W * st.H
+		first := make([]color.Color, n)
+		for i := 0; i < n; i++ {
+			first[i] = res.At(i%st.W, i/st.W)
+		}
+		for i := n - 1; i >= 0; i-- {
+			if got := res.At(i%st.W, i/st.W); got != first[i] {
+				firstMsg = fmt.Sprintf("pixel (%d,%d) reads %v in raster order and %v when the image is read bottom-up", i%st.W, i/st.W, first[i], got)
+				return
+			}
+		}
+		stride := 7919 % n
+		if stride == 0 || gcd(stride, n) != 1 {
+			stride = 1
+			for _, p := range []int{104729, 7907, 613, 101, 31, 7} {
+				if gcd(p%n, n) == 1 && p%n != 0 {
+					stride = p % n
+					break
+				}
+			}
+		}
+		for k, i := 0, 0; k < n; k, i = k+1, (i+stride)%n {
+			if got := res.At(i%st.W, i/st.W); got != first[i] {
+				firstMsg = fmt.Sprintf("pixel (%d,%d) reads %v in raster order and %v under scattered access", i%st.W, i/st.W, first[i], got)
+				return
+			}
+		}
+		firstMsg = ""
+	}); pv != nil {
+		failf(t, P, K, c, "depth %d: re-reading pixels: %v", depth, pv)
+	}
+	if firstMsg != "" {
+		failf(t, P, K, c, "depth %d: %dx%d %dD source scaled to %dx%d: %s", depth, W, H, dims, st.W, st.H, firstMsg)
+	}
 	if res.Content() != src.Content() {
 		failf(t, P, K, c, "depth %d: Content() %q differs from the source's %q", depth, res.Content(), src.Content())
 	}
@@ -153,6 +190,7 @@ func checkScaleStep(t TB, c any, src barcode.Barcode, st ScaleStep, depth int) (
 }
 
 func checkScale(t TB, c ScaleCase) scaleOutcome {
+	noteCase("C09", "scale", c)
 	var out scaleOutcome
 	src, err, pv := encodeSpec(c.Source)
 	if pv != nil {
@@ -345,4 +383,11 @@ func TestC09Window(t *testing.T) {
 	if ct.Failed() {
 		t.Fatalf("%s", ct.first)
 	}
+}
+
+func gcd(a, b int) int {
+	for b != 0 {
+		a, b = b, a%b
+	}
+	return a
 }
